@@ -488,6 +488,7 @@ func execL(t *testing.T, raw json.RawMessage) *sim.Outcome {
 	var comments []string
 	var serr error
 	var panicked any
+	var signDur time.Duration
 	fail := sim.InBubble(t, func() {
 		clientCA := newCA("client-ca")
 		var eps []*epState
@@ -496,6 +497,8 @@ func execL(t *testing.T, raw json.RawMessage) *sim.Outcome {
 		}
 		signer := ent.signer.VerifWithDialOptions(grpc.WithContextDialer(n.dial))
 		ctx, cancel := context.WithTimeout(context.Background(), time.Duration(p.Cfg.ParentSec)*time.Second)
+		signStart := time.Now()
+		defer func() { signDur = time.Since(signStart) }()
 		func() {
 			defer func() {
 				if r := recover(); r != nil {
@@ -523,6 +526,20 @@ func execL(t *testing.T, raw json.RawMessage) *sim.Outcome {
 	}
 	if panicked != nil {
 		o.Fail("C17.no_panic", "sign_panic", 0, "Sign panicked: %v", panicked)
+	}
+	// ---- bounded progress: every endpoint costs at most `retries` attempts of (per-try timeout + maximal
+	// back-off), plus the transport's connect timeout when it cannot be reached ----
+	bound := 5 * time.Second
+	for range p.Endpoints {
+		bound += time.Duration(max(p.Cfg.Retries, 1))*(time.Duration(p.Cfg.PerTryMs)*time.Millisecond+18*time.Second) + 25*time.Second
+	}
+	if limit := time.Duration(p.Cfg.ParentSec) * time.Second; bound > limit {
+		bound = limit + time.Second
+	}
+	if signDur > bound {
+		o.Fail("C17.bounded", "sign_too_slow", 0, "Sign took %v of simulated time for %d endpoints (retries %d, per-try %d ms): more than the bound %v", signDur, len(p.Endpoints), p.Cfg.Retries, p.Cfg.PerTryMs, bound)
+	} else {
+		o.Probe("sign_within_time_bound")
 	}
 	// ---- order of contact ----
 	lastEp := -1
